@@ -100,6 +100,10 @@ var c15Comments = []struct{ body, nonspace string }{
 	// letters whose UTF-8 encoding ends in a byte that is a space in Latin-1 (0xA0, 0x85) are letters: // after them is text
 	{"voil\u00e0//x", "voil\u00e0//x"}, {"\u0160//y z", "\u0160//yz"}, {"\u4e05//k", "\u4e05//k"}, {"\u0405// k", "\u0405//k"}, {"\u00e0/* c */b", "\u00e0b"}, {"x \u00e0 // c\nb", "x\u00e0b"},
 	{"\u00e0//", "\u00e0//"}, {"a\u4e05//b // c", "a\u4e05//b"},
+	// special-character commands emit exactly their characters, also inside a message and also when the result looks like a placeholder
+	{"{msg desc=\"d\"}Write {lb}0{rb} to greet {lb}NAME{rb}{/msg}", "Write{0}togreet{NAME}"}, {"{msg desc=\"d\"}{lb}A_1{rb}{$ij.x}{lb}{$ij.x}{rb}{/msg}", "{A_1}X{X}"},
+	{"{msg desc=\"d\"}{lb}{lb}X{rb}{rb} {lb}{rb} {rb}{lb}{/msg}", "{{X}}{}}{"}, {"{lb}NAME{rb}{sp}{lb}0{rb}{nil}{lb}", "{NAME}{0}{"},
+	{"{msg desc=\"d\"}{literal}{NAME} {0}{/literal}{/msg}", "{NAME}{0}"},
 }
 
 func stripSpace(s string) string {
@@ -120,7 +124,7 @@ func init() {
 		ID:    "C15",
 		Level: "exploration",
 		Rule: "exhaustive: every string of length <= 6 (thorough 8) over {a < > space tab CR LF é} as a text run, neighbour pair rotating over 18 left x 12 right neighbour kinds (five / two of them blocks that are not rendered and begin or end with a comment); every string of " +
-			"length <= 4 (thorough 5) between every neighbour pair; seeded longer runs with 中 and 😀; 34 comment placements (output compared modulo whitespace). " +
+			"length <= 4 (thorough 5) between every neighbour pair; seeded longer runs with 中 and 😀; 39 comment / special-character placements (output compared modulo whitespace). " +
 			"Oracle: the line-joining rule (ref.RawText). A case is a batch of 200 templates compiled together. distinct = distinct (text run, neighbour pair); non-trivial = run contains whitespace",
 		N: func(tier string) int {
 			ex, pf, rnd := c15Sizes(tier)
